@@ -91,7 +91,7 @@ def gen_op(rng, w, live):
     i = rng.choice(sorted(live))
     if k < 0.2:
         return ('clone', i, rng.randrange(nslots))
-    if k < 0.57:
+    if k < 0.55:
         pol = rng.choice(POLICIES)
         doc = rng.choice(['none', 'none', 'match', 'match', 'flip', 'otheralg'])
         lvl = rng.choice([0, 0, 0, 2, 9, 10, 255, 256])
@@ -99,7 +99,7 @@ def gen_op(rng, w, live):
         ext = rng.choice([0, 1])
         beh = rng.choice(['honest', 'honest', 'error', 'other-root'])
         return ('verify', i, pol, doc, lvl, pub, ext, beh)
-    if k < 0.595:
+    if k < 0.605:
         # KSI_SignatureVerifier_verify through that same kept context; signature, document hash and level are left in it afterwards
         return ('verify_vc', i, rng.choice(['internal', 'internal', 'general', 'key']), rng.choice(['none', 'match', 'match', 'flip', 'otheralg']), rng.choice([0, 0, 2, 9]))
     if k < 0.63:
@@ -135,6 +135,7 @@ class Hist:
         self.live = {}     # slot -> (bytes, sig index or None)
         self.trace = []
         self.behaviour = 'honest'
+        self.rng2 = random.Random('reuse/' + label)
         c = self.c
         c('ctx 0')
         c('opt 0 hash_cache %d' % cache)
@@ -216,6 +217,7 @@ class Hist:
                 self.viol('verdict-differs-from-fresh-context:%s' % ('user-defined-policy' if pol.startswith('rules:') else 'policy-with-fallback' if pol.startswith('fb:') else pol), 'verification %s gives %s on the shared context and %s on a fresh context' % (cmd[:90], got, fresh))
         elif kind == 'verify_wp':
             _, slot, pol, doc, lvl = op
+            self.last_vc = None      # (this call adjusts the kept context: no document hash in it when none is given)
             raw, si = self.live[slot]
             base = self.verify_cmd(slot, si, pol, doc, lvl, 'none', 0)
             q = c(base + ' api=withpolicy uservc=1')
@@ -237,8 +239,18 @@ class Hist:
         elif kind == 'verify_vc':
             _, slot, pol, doc, lvl = op
             raw, si = self.live[slot]
-            base = self.verify_cmd(slot, si, pol, doc, lvl, 'none', 0)
-            q = c(base + ' api=verifier uservc=1')
+            last = getattr(self, 'last_vc', None)
+            if last is not None and last[0] == slot and last[1] == (raw, si) and self.rng2.random() < 0.5:
+                # the context is NOT filled in again: the same signature, document hash and level as in the previous call through it, another policy
+                doc, lvl = last[2], last[3]
+                base = self.verify_cmd(slot, si, pol, doc, lvl, 'none', 0)
+                q = c(base + ' api=verifier uservc=1 reuse=1')
+                if q.get('reused'):
+                    self.r.count('kept_context_used_again_without_refilling')
+            else:
+                base = self.verify_cmd(slot, si, pol, doc, lvl, 'none', 0)
+                q = c(base + ' api=verifier uservc=1')
+            self.last_vc = (slot, (raw, si), doc, lvl)
             c('ctx 1')
             c('set_ext 1 ksi+http://e.example/x anon anon')
             c('sigparse 1 9 empty ' + raw.hex())
